@@ -68,6 +68,8 @@ def expected(h):
 
 def cache_filter(loc):
     """Scheduling points restricted to the cache / namespace manipulation sites (bound-2 stratum of large harnesses)."""
+    if len(loc) < 2 or not isinstance(loc[1], int):
+        return True           # thread start / exit points
     f, line = loc[0], loc[1]
     return f in ('operator_dict.py',) or (f == 'codegen.py' and isinstance(line, int) and (590 <= line <= 660 or 760 <= line <= 780))
 
